@@ -41,7 +41,8 @@ def sim_call(fn, schedule, faults=None, rng_injector=None, max_steps=3_000_000, 
     extra = (SORTEDCONTAINERS_DIR,) if schedule.get("trace_sortedcontainers") else ()
     return run_sim(fn, policy=schedule["policy"], workers=schedule["workers"],
                    trace_lines=schedule.get("trace_lines", True), faults=flt,
-                   rng_injector=rng_injector, max_steps=max_steps, extra_prefixes=extra, watcher=watcher)
+                   rng_injector=rng_injector, max_steps=max_steps * (8 if schedule.get("trace_opcodes") else 1),
+                   extra_prefixes=extra, watcher=watcher, trace_opcodes=bool(schedule.get("trace_opcodes")))
 
 
 def sched_digest(out):
